@@ -103,6 +103,7 @@ type pMethod struct {
 	ValueRecv  bool       `json:"valueRecv,omitempty"` // func (c AController) instead of (c *AController)
 	Ptag       string     `json:"ptag,omitempty"`      // which perturbation(s) produced this method (label only)
 	VerbProps  string     `json:"verbProps,omitempty"` // "key: value" text of a properties object on @Method (which takes none)
+	Multiline  bool       `json:"multiline,omitempty"` // every parameter name on a line of its own
 	Groups     []int      `json:"groups,omitempty"`    // identifier lists: [3,1] renders (a, b, c string, d int); empty = one name per declaration
 }
 
@@ -448,7 +449,11 @@ func writeProjectP(dir string, pc *pCase, repo string, hook bodyHook, prefix str
 				}
 				names = append(names, p.Name)
 			}
-			params = append(params, strings.Join(names, ", ")+" "+localType(m.Sig[at].Type, c.Pkg, fb.imports, pkgs))
+			sep := ", "
+			if m.Multiline {
+				sep = ",\n\t"
+			}
+			params = append(params, strings.Join(names, sep)+" "+localType(m.Sig[at].Type, c.Pkg, fb.imports, pkgs))
 			at += size
 		}
 		if at != len(m.Sig) {
@@ -470,7 +475,11 @@ func writeProjectP(dir string, pc *pCase, repo string, hook bodyHook, prefix str
 		if m.ValueRecv {
 			recv = c.Name
 		}
-		fmt.Fprintf(&fb.body, "func (ctl_ %s) %s(%s)%s {\n", recv, m.Name, strings.Join(params, ", "), retSig)
+		if m.Multiline && len(params) > 0 {
+			fmt.Fprintf(&fb.body, "func (ctl_ %s) %s(\n\t%s,\n)%s {\n", recv, m.Name, strings.Join(params, ",\n\t"), retSig)
+		} else {
+			fmt.Fprintf(&fb.body, "func (ctl_ %s) %s(%s)%s {\n", recv, m.Name, strings.Join(params, ", "), retSig)
+		}
 		if hook != nil {
 			fb.body.WriteString(hook(c, m, retLocal, fb.imports))
 		} else {
